@@ -55,7 +55,7 @@ def run(tier):
         acts.append(act)
     # unbalanced / raw strings as well (memory safety + scanner conformance, no inversion claim)
     for _ in range(1000 if tier == "quick" else 50000):
-        acts.append({"n": "Split", "cmd": T("".join(r_.choice(alphabet) for _ in range(r_.randint(0, 40))))})
+        acts.append({"n": "Split", "raw": True, "cmd": T("".join(r_.choice(alphabet) for _ in range(r_.randint(0, 40))))})
     blocks.append(({"abbr": True, "endvalues": False, "args": [], "hcons": []}, acts))
     # ---- T2: valid lines delivered through evalArgumentString, an argument file and/or the environment variable
     ncfg, nlines = (80, 5) if tier == "quick" else (2500, 8)
